@@ -13,6 +13,8 @@ THEOREMS += ['C09_prims_source_is_model', 'C09_ceq_respected', 'C09_prims_source
              'C09_prims_source_example']
 # eliminate_1to1_forks translated from the source (translate/gen_circuit_elim.py) keeps the invariant (via C10_eliminate_source_is_model)
 THEOREMS += ['C09_eliminate_source']
+# the pickle pair translated from the source (translate/gen_circuit_pickle.py): invariant, container classes, line removal afterwards
+THEOREMS += ['C09_pickle_source', 'C09_unpickled_line_remove']
 
 LIB_NETLIST = '''module m (a, b, c, y, z); input a, b, c; output y, z;
   %s u1 (%s);
@@ -112,7 +114,10 @@ def run(ck):
     from vcheck import gen_all, core
     # translation (tie T): Gen/CircuitPrimsSrc.v is regenerated from the current text of circuit.py; C09_prims_source_is_model then
     # re-proves that the translated primitives are the hand-written primitives of Model/Circuit.v
-    res = gen_all.generate(['CircuitPrimsSrc', 'CircuitElimSrc'])
+    res = gen_all.generate(['CircuitPrimsSrc', 'CircuitElimSrc', 'CircuitPickleSrc'])
+    ck.obligation('translate circuit.py Circuit.__getstate__ / __setstate__ -> Gen/CircuitPickleSrc.v (translate/gen_circuit_pickle.py; '
+                  'C09_pickle_source / C09_unpickled_line_remove are stated about it; the classes the list attributes are created with '
+                  'are part of the translated result)', res['CircuitPickleSrc'] is None, 'translation', res['CircuitPickleSrc'] or '')
     ck.obligation('translate circuit.py Circuit.eliminate_1to1_forks -> Gen/CircuitElimSrc.v (translate/gen_circuit_elim.py; '
                   'C09_eliminate_source is stated about it)', res['CircuitElimSrc'] is None, 'translation', res['CircuitElimSrc'] or '')
     ck.obligation('translate circuit.py primitives -> Gen/CircuitPrimsSrc.v', res['CircuitPrimsSrc'] is None, 'translation',
